@@ -332,7 +332,11 @@ w_gr(const char *fn, int comp)
             if (comp) {
                 comp_info ci;
                 ci.deflate.level = 5;
-                CK(GRsetcompress(ri, comp == 1 ? COMP_CODE_DEFLATE : COMP_CODE_RLE, &ci));
+                if (comp == 3) {
+                    ci.jpeg.quality        = 80;
+                    ci.jpeg.force_baseline = 1;
+                }
+                CK(GRsetcompress(ri, comp == 1 ? COMP_CODE_DEFLATE : comp == 3 ? COMP_CODE_JPEG : COMP_CODE_RLE, &ci));
             }
             int32 st[2] = {0, 0};
             CK(GRwriteimage(ri, st, NULL, dims, big));
@@ -352,6 +356,7 @@ w_gr(const char *fn, int comp)
 static void w_gr0(const char *fn) { w_gr(fn, 0); }
 static void w_gr1(const char *fn) { w_gr(fn, 1); }
 static void w_gr2(const char *fn) { w_gr(fn, 2); }
+static void w_gr3(const char *fn) { w_gr(fn, 3); }
 
 static void
 w_ext(const char *fn)
@@ -619,6 +624,56 @@ w_sd_update(const char *fn)
         CK(SDendaccess(sds));
     }
     CK(SDend(sd));
+}
+
+
+static void
+w_ci8_read(const char *fn)
+{
+    /* an ungrouped RLE-compressed 8-bit image of the oldest convention (CI8 + ID8), read through GR under faults */
+    QUIET({
+        uint8 img[5][12], cbuf[512], id8[4] = {0, 12, 0, 5};
+        for (int i = 0; i < 5; i++)
+            for (int j = 0; j < 12; j++)
+                img[i][j] = (uint8)(j < 6 ? 9 : i);
+        unlink("c16_tmp8.hdf");
+        DFR8putimage("c16_tmp8.hdf", img, 12, 5, COMP_RLE);
+        int32  f = Hopen("c16_tmp8.hdf", DFACC_READ, 0);
+        uint16 t = 0, r = 0;
+        int32  off, len = 0;
+        Hfind(f, DFTAG_CI8, DFREF_WILDCARD, &t, &r, &off, &len, DF_FORWARD);
+        Hgetelement(f, t, r, cbuf);
+        Hclose(f);
+        unlink("c16_tmp8.hdf");
+        f = Hopen(fn, DFACC_CREATE, 0);
+        Hputelement(f, DFTAG_CI8, 3, cbuf, len);
+        Hputelement(f, DFTAG_ID8, 3, id8, 4);
+        Hclose(f);
+    });
+    int32 fid = Hopen(fn, DFACC_READ, 0);
+    if (fid == FAIL) {
+        nfail++;
+        return;
+    }
+    int32 gr = GRstart(fid);
+    if (gr == FAIL)
+        nfail++;
+    else {
+        int32 ri = GRselect(gr, 0);
+        if (ri == FAIL)
+            nfail++;
+        else {
+            int32 st[2] = {0, 0}, dims[2] = {12, 5};
+            memset(rbuf, 0, 60);
+            if (GRreadimage(ri, st, NULL, dims, rbuf) == FAIL)
+                nfail++;
+            else
+                dg(rbuf, 60);
+            CK(GRendaccess(ri));
+        }
+        CK(GRend(gr));
+    }
+    CK(Hclose(fid));
 }
 
 static void
@@ -1092,10 +1147,10 @@ static struct {
     void (*fn)(const char *);
 } W[] = {{"hlevel", w_hlevel},   {"linkapp", w_linked_append}, {"vdata", w_vdata}, {"sd", w_sd0},
          {"sd_deflate", w_sd1}, {"sd_chunk", w_sd2},          {"sd_chunk_rle", w_sd3}, {"sd_nbit", w_sd4},
-         {"sd_unlim", w_sd_unlimited}, {"gr", w_gr0},         {"gr_deflate", w_gr1}, {"gr_rle", w_gr2},
+         {"sd_unlim", w_sd_unlimited}, {"gr", w_gr0},         {"gr_deflate", w_gr1}, {"gr_rle", w_gr2}, {"gr_jpeg", w_gr3},
          {"ext", w_ext},        {"an", w_an},                 {"bits", w_bits2},
          {"sd_nbit_big", w_sd_nbit_big}, {"gr_two", w_gr_two}, {"vs_ext", w_vs_ext}, 
-         {"sd_clobber", w_sd_clobber}, {"sd_update", w_sd_update}, {"read_all", w_read_all}, {"oldatt", w_oldatt}, {"bits_rw", w_bits_rw}, {"ext_dir", w_ext_dir}, {"gr_map", w_gr_map}, {"flush", w_flush}, {"nbit_read", w_nbit_read}, {"sd_meta", w_sd_meta}, {"sd_agent", w_sd_agent}, {"reopen", w_reopen_after_fault}};
+         {"sd_clobber", w_sd_clobber}, {"sd_update", w_sd_update}, {"read_all", w_read_all}, {"ci8_read", w_ci8_read}, {"oldatt", w_oldatt}, {"bits_rw", w_bits_rw}, {"ext_dir", w_ext_dir}, {"gr_map", w_gr_map}, {"flush", w_flush}, {"nbit_read", w_nbit_read}, {"sd_meta", w_sd_meta}, {"sd_agent", w_sd_agent}, {"reopen", w_reopen_after_fault}};
 
 static unsigned long
 hash_file(const char *fn, long *len)
